@@ -8,6 +8,7 @@ CONSTANTS
   OptSet <- OptsCont4
   AbortCancels = TRUE
   GenChecksCtx = TRUE
+  GenEofByIs = FALSE
   ResolverSame = TRUE
   ExcludedConsulted = TRUE
   Mut = "none"
